@@ -2,11 +2,12 @@
 from fractions import Fraction
 
 from .. import exact
-from ..core import R, HarnessError
+from ..core import R, HarnessError, time_limit, CaseTimeout, in_repo_frame
 
 ID = "C32"
 LEVEL = "exploration"
 CASE_TIMEOUT = 120.0
+FAIL_TIME = 1.0    # seconds granted to a call on a singular matrix before it is interrupted (then only mp.prec is checked)
 KMAX = 64          # bound on cond_inf(S) = ||S||_inf * ||S^-1||_inf of the generated similarity
 RULE = ("Cases = (operation, precision p in 30..200, matrix A = S B S^-1 of size 1..6) constructed, never filtered: S is an "
         "integer unimodular matrix (signed permutation followed by up to 2n elementary row operations with multipliers "
@@ -40,9 +41,9 @@ OPS = ["exp", "trig", "log", "sqrt", "pow_int", "pow_frac", "fail"]
 
 def shards(tier):
     q = tier == "quick"
-    plan = [("exp", 260), ("exp", 260), ("exp", 260), ("trig", 200), ("trig", 200), ("log", 80), ("log", 80), ("log", 80),
-            ("log", 80), ("sqrt", 220), ("sqrt", 220), ("sqrt", 220), ("pow_int", 400), ("pow_frac", 90), ("pow_frac", 90),
-            ("fail", 120)]
+    plan = [("exp", 700), ("exp", 700), ("exp", 700), ("trig", 500), ("trig", 500), ("log", 260), ("log", 260), ("log", 260),
+            ("log", 260), ("sqrt", 700), ("sqrt", 700), ("sqrt", 700), ("pow_int", 1500), ("pow_frac", 350), ("pow_frac", 350),
+            ("fail", 160)]
     return [(s, n if q else n * 25) for s, n in plan]
 
 
@@ -136,7 +137,7 @@ def _spectrum(d, n, field, dom, op):
     if op == "sqrt":
         classes += [(1, "zero")]
     if field == "complex" and dom == "cut" and n >= 2:
-        classes += [(3, "negdet")]
+        classes = [(5, "negdet")] + classes
     sc = d.weighted(classes)
     cplx = field != "real"
 
@@ -157,8 +158,11 @@ def _spectrum(d, n, field, dom, op):
             bx = -bx
         w = d.choice([1, 1, 3, max(1, one // 4)])
         vals = [(bx + d.int(-w, w), (by + d.int(-w, w)) if k != "r" else 0) for k in kinds]
-        if dom == "cut":
-            vals = [(max(x, max(1, one // 16)), y) for x, y in vals]
+        lo = max(1, one // 16)
+        if dom == "cut" or (dom == "nonzero" and bx > 0):
+            vals = [(max(x, lo), y) for x, y in vals]
+        elif dom == "nonzero":
+            vals = [(min(x, -lo), y) for x, y in vals]
     elif sc == "scalar":
         v = _val(d, "complex" if (cplx and "r" not in kinds) else "real", dom, e)
         vals = [v if k != "r" else (v[0], 0) for k in kinds]
@@ -176,20 +180,26 @@ def _spectrum(d, n, field, dom, op):
                 x = (6 * one - d.int(0, one)) * (-1 if x < 0 else 1)
             vals.append((x, y))
     elif sc == "small":
-        w = max(1, one // 4)
+        e = d.int(2, 24)          # only the numerators have to fit the precision
+        one = 1 << e
+        w = max(1, min(64, one // 4))
         vals = [(d.int(-w, w), d.int(-w, w) if k != "r" else 0) for k in kinds]
     elif sc == "zero":
         vals = [(0, 0) for k in kinds]
     elif sc == "negdet":
         # pairs z, -conj(z) with |Im z| >= |Re z|: product -|z|^2, every factor inside the domain; det(A) < 0 real
+        if d.bool():
+            e = d.int(0, 1)       # small Gaussian integers / halves: det(A) is computed without rounding error, so
+            one = 1 << e          # that sqrtm's test "det is a negative real number" fires
         lo = max(1, one // 16)
+        hi = 8 * one if e > 1 else 2 * one
         vals = []
         while len(vals) + 2 <= m:
-            y = d.int(lo, 8 * one) * d.choice([1, -1])
+            y = d.int(lo, hi) * d.choice([1, -1])
             x = d.int(-abs(y), abs(y))
             vals += [(x, y), (-x, y)]
         if len(vals) < m:
-            vals.append((d.int(lo, 8 * one), 0))
+            vals.append((d.int(lo, hi), 0))
     blocks = []
     for k, (x, y) in zip(kinds, vals):
         if k == "r":
@@ -205,10 +215,10 @@ def gen_case(d, shard, tier):
     op = shard
     field = d.weighted([(4, "real"), (4, "complex"), (2, "realblocks")])
     heavy = op in ("log", "pow_frac", "fail")
-    n = d.weighted([(2, 1), (4, 2), (4, 3), (3, 4), (2, 5), (2, 6)] if not heavy else
-                   [(2, 1), (5, 2), (5, 3), (3, 4), (1, 5), (1, 6)])
+    n = d.weighted([(4, 3), (4, 2), (3, 4), (2, 5), (2, 6), (2, 1)] if not heavy else
+                   [(5, 3), (5, 2), (3, 4), (1, 5), (1, 6), (2, 1)])
     if op == "fail":
-        n = min(n, 4)
+        n = d.weighted([(5, 2), (4, 3), (3, 4), (1, 1)])
     if n == 1 and field == "realblocks":
         field = "real"
     p = d.choice([30, 31, 32, 53, 64, 100, 113, 128, 200]) if d.int(0, 2) == 0 else d.int(30, 200)
@@ -590,23 +600,38 @@ def check_case(c):
         elif op == "fail":
             call = c["call"]
             try:
-                if call == "logm":
-                    mp.logm(A)
-                elif call == "sqrtm":
-                    mp.sqrtm(A)
-                elif call == "powm-1":
-                    mp.powm(A, -1)
-                elif call == "powm-2":
-                    mp.powm(A, -2)
-                elif call == "powm1/3":
-                    mp.powm(A, mp.mpf(1) / 3)
-                else:
-                    mp.powm(A, -0.5)
+                with time_limit(FAIL_TIME):
+                    if call == "logm":
+                        mp.logm(A)
+                    elif call == "sqrtm":
+                        mp.sqrtm(A)
+                    elif call == "powm-1":
+                        mp.powm(A, -1)
+                    elif call == "powm-2":
+                        mp.powm(A, -2)
+                    elif call == "powm1/3":
+                        mp.powm(A, mp.mpf(1) / 3)
+                    else:
+                        mp.powm(A, -0.5)
                 res.cls += ":returned"
             except ZeroDivisionError:
                 res.cls += ":ZeroDivisionError"
             except mp.NoConvergence:
                 res.cls += ":NoConvergence"
+            except CaseTimeout:
+                # interrupted in the middle of the computation: the precision must be restored all the same
+                res.cls += ":interrupted"
+                if not any(any(row) for row in Are) and not any(any(row) for row in Aim):
+                    # the zero matrix: sqrtm returns it unchanged at once, so logm's reduction loop "until
+                    # ||B - I|| < 1/8" can never end -- not a slow case but a provably endless one
+                    res.bad("hang:logm:zero-matrix", "%s of the %dx%d zero matrix did not return within %.1f s (endless "
+                            "square-root loop in logm; the docstring promises ZeroDivisionError for matrices without a "
+                            "logarithm) at prec %d" % (call, n, n, FAIL_TIME, p))
+            except Exception as ex:
+                where = _frame(ex.__traceback__)
+                res.cls += ":" + type(ex).__name__
+                res.bad("singular:%s@%s" % (type(ex).__name__, where), "%s of a singular matrix raised the undocumented %s: %s (%s)" % (
+                    call, type(ex).__name__, ex, ctxinfo))
             after(call + " of a singular matrix")
         else:
             raise HarnessError("unknown op %r" % op)
@@ -614,6 +639,17 @@ def check_case(c):
     finally:
         mp.prec = 53
         rm.prec = old_ref
+
+
+def _frame(tb):
+    """innermost frame inside mpmath/matrices/{calculus,linalg}.py"""
+    import traceback
+    hit = in_repo_frame(tb)
+    for fs in traceback.extract_tb(tb):
+        fn = fs.filename.replace("\\", "/")
+        if fn.endswith("/matrices/calculus.py") or fn.endswith("/matrices/linalg.py"):
+            hit = "%s:%s" % (fn.rsplit("/", 1)[1], fs.name)
+    return hit
 
 
 def _raws(M):
